@@ -27,6 +27,9 @@ func NewLevelDBStore(cfg dbconfig.LevelDBOptions) (*LevelDBStore, error) {
 		opts.ErrorIfMissing = true
 	}
 	opts.Filter = filter.NewBloomFilter(10)
+	// File numbers of removed tables get reused, cached blocks of a removed
+	// table must not be served for a new one with the same number.
+	opts.BlockCacheEvictRemoved = true
 	db, err := leveldb.OpenFile(cfg.DataDirectoryPath, opts)
 	if err != nil {
 		return nil, fmt.Errorf("failed to open LevelDB instance: %w", err)
